@@ -28,3 +28,13 @@ pub fn vx_display(v: &Value, f: &mut VFmt) -> (r: Result<(), std::fmt::Error>)
 {
     unimplemented!()
 }
+
+// X7 call shim for `<String as Display>::fmt(s, formatter)` (method form `s.fmt(formatter)`):
+// a String is displayed as itself
+#[verifier::external_body]
+pub fn vx_display_string(s: &String, f: &mut VFmt) -> (r: Result<(), std::fmt::Error>)
+    ensures
+        r is Ok ==> final(f).segs@ == old(f).segs@.push(s@),
+{
+    unimplemented!()
+}
